@@ -301,6 +301,9 @@ type encCase struct {
 	direct    bool // no Phred<->Solexa scale conversion in the case
 	// Encode only: the range guard is evaluated on an unsigned value
 	guardUnsigned bool
+	// Encode only: the case clamps low bytes to a constant (`if q < K { q = K }`)
+	clamp    bool
+	clampPos token.Pos
 	why       string
 }
 
@@ -404,6 +407,17 @@ func encodeCase(p *packages.Package, cc *ast.CaseClause) *encCase {
 			if s.Init != nil {
 				continue
 			}
+			// clamp: if q < K { q = K }
+			if cb, ok := unparen(s.Cond).(*ast.BinaryExpr); ok && (cb.Op == token.LSS || cb.Op == token.LEQ) {
+				if _, isK := constInt(p, cb.Y); isK && len(s.Body.List) == 1 {
+					if as, ok := s.Body.List[0].(*ast.AssignStmt); ok && as.Tok == token.ASSIGN && len(as.Rhs) == 1 {
+						if _, isConst := constInt(p, as.Rhs[0]); isConst {
+							ec.clamp, ec.clampPos = true, s.Pos()
+							continue
+						}
+					}
+				}
+			}
 			be := upperGuard(s.Cond)
 			if be == nil {
 				continue
@@ -503,6 +517,16 @@ func ruleQuality(c *Ctx) {
 			c.bad(rule, key+"-offset-agree", ecl.Pos(), fmt.Sprintf("offset applied up to score %d, i.e. byte %d; the printable range ends at '~' (126)", e.bound, e.bound+e.offset))
 		default:
 			c.ok(rule, key+"-offset-agree", ecl.Pos(), fmt.Sprintf("Encode +%d for scores <= %d, Decode -%d, bound+offset = '~'", e.offset, e.bound, d.offset))
+		}
+		// Only Illumina 1.5+ reserves its lowest bytes (0,1 unused, 2 = 'B' the read
+		// segment quality control indicator): a clamp anywhere else makes distinct
+		// printable scores collide.
+		if e.clamp {
+			if name == "Illumina1_5" {
+				c.ok(rule, key+"-clamp", e.clampPos, "Illumina 1.5 clamps scores below 'B' by design (0,1 unused, 2 = indicator)")
+			} else {
+				c.bad(rule, key+"-clamp", e.clampPos, "the Encode case of "+name+" clamps low bytes to a constant: scores inside its printable range (which starts at 0) collide and do not decode back; only Illumina1_5 reserves its lowest values")
+			}
 		}
 		// A signed score type has printable negative scores (Solexa -5..-1 are ';'..'?'):
 		// the range guard must see the signed value, not its unsigned image.
